@@ -270,8 +270,8 @@ def replay_c05(path):
 
 # ------------------------------------------------------------------------------------------ C18
 
-C18_SCOPED = ['for', 'forelse', 'forelsevar', 'forfilter', 'forfilterloop', 'forloopiter', 'forunpack', 'with', 'setblock', 'setblockf', 'filter', 'autoescape', 'if', 'ifelse']
-C18_LEAVES = ['emit', 'emitvar', 'set', 'setself', 'withself', 'ifbreak', 'setblockself', 'looplookup', 'slice', 'nsset', 'callarg', 'testarg', 'ifexpr']
+C18_SCOPED = ['for', 'forelse', 'forelsevar', 'forfilter', 'forfilterloop', 'forloopiter', 'forunpack', 'with', 'with2', 'setblock', 'setblockf', 'filter', 'autoescape', 'if', 'ifelse']
+C18_LEAVES = ['emit', 'emitvar', 'set', 'setself', 'withself', 'ifbreak', 'setblockself', 'looplookup', 'slice', 'nsset', 'callarg', 'testarg', 'ifexpr', 'mapkey']
 
 
 def c18_reads(src):
